@@ -67,7 +67,7 @@ def units(tier):
     # reader kernel: statements joined by ';' on one line (with a trailing comment) are the same
     # statements as on separate lines, for every text over quotes, '!', ';', a letter
     for n in ((3, 4, 5, 6) if q else (3, 4, 5, 6, 7)):
-        us.append(dict(h="k_join", n=n, cost=n))
+        us.append(dict(h="k_join", n=n, cost=0))      # cost 0: explored first
     return us
 
 
